@@ -455,13 +455,19 @@ func histories(c *ev.Ctx) {
 	if c.Thorough() {
 		depth = 4
 	}
-	historiesOver(c, alphabet(), depth, "")
-	// two schemas that share one added type object: a small alphabet, one level deeper
+	// the small alphabets first, one level deeper than the big one; each part may use a share of what is
+	// left of the budget, so that a deadline cuts the tail of the big alphabet and nothing else
+	// two schemas that share one added type object
+	c.Part("histories over the shared-type alphabet", 0.15)
 	historiesOver(c, sharedAlphabet(), depth+1, "shared_types_")
 	// a type that extends another one, used alone (failing) and inside a schema that knows its base
+	c.Part("histories over the heir alphabet", 0.15)
 	historiesOver(c, heirAlphabet(), depth+1, "heir_types_")
 	// schemas without an example next to loads that fail half-way
+	c.Part("histories over the empty-schema alphabet", 0.15)
 	historiesOver(c, emptyAlphabet(), depth+1, "empty_schemas_")
+	c.EndPart()
+	historiesOver(c, alphabet(), depth, "")
 }
 
 func historiesOver(c *ev.Ctx, ops []opT, depth int, tag string) {
@@ -780,10 +786,14 @@ func mapOrder(c *ev.Ctx) {
 }
 
 func run(c *ev.Ctx) {
-	histories(c)
+	c.Part("stream merges", 0.1)
 	streamx.Run(c)
-	mapOrder(c)
+	c.Part("construction paths", 0.15)
 	constructionPaths(c)
+	c.Part("map orders", 0.4)
+	mapOrder(c)
+	c.EndPart()
+	histories(c)
 	// static site inventory (written by the overlay generator)
 	if data, err := os.ReadFile(os.Getenv("VERIF_DIR") + "/.build/overlay/sites.json"); err == nil {
 		var inv struct {
